@@ -6,10 +6,11 @@ from . import corpus, docgen, impl, tlc
 from .ctx import Machinery
 
 QUICK = [("mc/MC_MdBlocksQ", "MC_MdBlocksQ_2.cfg"), ("mc/MC_MdBlocksN", "MC_MdBlocksN_2.cfg"), ("mc/MC_MdBlocksD", "MC_MdBlocksD_2.cfg"),
-         ("mc/MC_MdBlocksO", "MC_MdBlocksO_3.cfg"), ("mc/MC_MdBlocksT", "MC_MdBlocksT_3.cfg")]
+         ("mc/MC_MdBlocksO", "MC_MdBlocksO_3.cfg"), ("mc/MC_MdBlocksT", "MC_MdBlocksT_3.cfg"), ("mc/MC_MdBlocksR", "MC_MdBlocksR_3.cfg")]
 THOROUGH = [("mc/MC_MdBlocksF", "MC_MdBlocksF_2.cfg"), ("mc/MC_MdBlocksQ", "MC_MdBlocksQ_3v.cfg"), ("mc/MC_MdBlocksN", "MC_MdBlocksN_3v.cfg"),
             ("mc/MC_MdBlocksQ", "MC_MdBlocksQ_2.cfg"), ("mc/MC_MdBlocksN", "MC_MdBlocksN_2.cfg"), ("mc/MC_MdBlocksD", "MC_MdBlocksD_2.cfg"),
-            ("mc/MC_MdBlocksD", "MC_MdBlocksD_3v.cfg"), ("mc/MC_MdBlocksO", "MC_MdBlocksO_3.cfg"), ("mc/MC_MdBlocksT", "MC_MdBlocksT_3.cfg")]
+            ("mc/MC_MdBlocksD", "MC_MdBlocksD_3v.cfg"), ("mc/MC_MdBlocksO", "MC_MdBlocksO_3.cfg"), ("mc/MC_MdBlocksT", "MC_MdBlocksT_3.cfg"),
+            ("mc/MC_MdBlocksR", "MC_MdBlocksR_3.cfg")]
 
 
 def model_docs(ctx, tier):
@@ -73,10 +74,37 @@ def lrd_docs(tier):
     return docs
 
 
+def position_docs(tier):
+    """families for position bookkeeping across lines: block quote paragraphs with hard breaks and changing / missing prefixes,
+    multi-line links with destinations that are longer raw than normalised, followed by further inline elements"""
+    import itertools
+    docs = []
+    prefixes = ["> ", ">", "> > ", ""]
+    firsts = ["a  ", "a\\", "a"]
+    others = ["*b* c", "x `c` y", "[l](/u) z", "w <b> *e*"]
+    for p in itertools.product(prefixes, repeat=3):
+        if p[0] == "":
+            continue
+        for f in firsts:
+            for o2 in others:
+                for o3 in (others if tier == "thorough" else others[:2]):
+                    docs.append(("", "%s%s\n%s%s\n%s%s\n" % (p[0], f, p[1], o2 + ("  " if o2 == others[0] else ""), p[2], o3)))
+    dests = ["/u", "/a\\*b", "/a%20b", "/a b".replace(" ", "%20") + "&lt;", "</a b>", "/\u00fc", "/a&amp;b", "/a\\(b"]
+    tails = ["*e*", "`c`", "<b>", "x [m](/n)", "![i](/j)"]
+    for ctxp in ("", "> ", "- "):
+        ind = "  " if ctxp == "- " else ctxp
+        for dst in dests:
+            for tl in tails:
+                docs.append(("", "%s[t](\n%s%s) %s\n" % (ctxp, ind, dst, tl)))
+                docs.append(("", "%s[t](%s\n%s\"ti\") %s and %s\n" % (ctxp, dst, ind, tl, tl)))
+                docs.append(("", "%sa [t](\n%s%s\n%s) %s\n" % (ctxp, ind, dst, ind, tl)))
+    return docs
+
+
 def other_docs(tier, seed_):
     """fixed pools (generated, systematic) in a VERIF_SEED-chosen subset for quick, complete for thorough; repository documents"""
     n_gen, n_sys = (400, 400) if tier == "quick" else (docgen.POOL, docgen.SYS_POOL)
-    docs = inline_docs(tier) + lrd_docs(tier) + docgen.documents(n_gen, seed_) + docgen.systematic(seed_, n_sys)
+    docs = inline_docs(tier) + lrd_docs(tier) + position_docs(tier) + docgen.documents(n_gen, seed_) + docgen.systematic(seed_, n_sys)
     paths = corpus.rule_docs() if tier == "thorough" else corpus.sample(corpus.rule_docs(), 150, seed_)
     for p in paths + (corpus.project_docs() if tier == "thorough" else corpus.sample(corpus.project_docs(), 15, seed_)):
         try:
